@@ -103,6 +103,34 @@ theorem leave_restores_context {L : Nat} {s : St} {a : Act} {rest : List Act}
 example : run (init 500) [.push, .enter .includeTpl, .push, .enter .blockCall, .push, .leave, .leave] =
     .ok { limit := 500, cur := ⟨0, 2⟩, acts := [] } := by decide
 
+/-- an include/import that finds no template (`ignore missing`, every candidate of a list missing,
+    or the `TemplateNotFound` error path) is depth neutral: it takes no charge and releases none,
+    whatever the surrounding depth -/
+theorem missing_include_depth_neutral (s : St) :
+    step s .missingInclude = .ok s ∧
+    ∀ evs, run s (.missingInclude :: evs) = run s evs := by
+  refine ⟨rfl, ?_⟩
+  intro evs
+  simp [run, MJ.Depth.step]
+
+example : run (init 30) [.enter .includeTpl, .missingInclude, .missingInclude, .enter .includeTpl,
+    .missingInclude, .enter .includeTpl] = .recursionError := by decide
+
+/-- an include, import or macro call that fails — at any nesting depth below it, `pre` being the
+    activations entered after it that the error unwinds through — leaves the includer's context
+    exactly as it was when the construct was entered: the error exits release what the entries
+    charged, and nothing panics.  (`pre = []`: the included template itself fails or returns.) -/
+theorem failed_include_depth_restored {L : Nat} {s : St} (pre : List Act) {a : Act}
+    {rest : List Act} (h : Reach L s) (ha : s.acts = pre ++ a :: rest) :
+    run s (List.replicate (pre.length + 1) .leave) = .ok { s with cur := a.old, acts := rest } :=
+  unwind_restores pre (reach_inv h).1 ha
+
+/-- a failed *attempt* to enter (the charge does not fit) changes nothing either: the only
+    outcomes of an attempt are the new state or the error, and the context operations are
+    functional (`push_frame`/`incr_depth` undo themselves: `pushFrameChecked`, `incrDepthChecked`) -/
+example : run (init 30) [.push, .enter .includeTpl, .enter .blockCall, .enter .includeTpl, .push,
+      .leave, .leave, .leave] = .ok { limit := 30, cur := ⟨0, 2⟩, acts := [] } := by decide
+
 /-- **weighted nesting**: in every reachable state the sum of the edge costs of the native
     activations on the stack is at most the limit (strictly below it while nested); the bound is
     linear, so it covers every mixture of edges -/
@@ -399,5 +427,20 @@ theorem reentry_sites_guarded :
     depthExprs = ["self.outer_stack_depth + self.stack.len()", "self.stack.len()"] ∧
     pushFrameChecked = true ∧ incrDepthChecked = true :=
   ⟨rfl, rfl, rfl, rfl, rfl, rfl⟩
+
+/-- the tie for the exit paths of `perform_include`: exits (`ok!`, `return`, `continue`) occur
+    only before the depth charge is taken or after it was released — none while it is held —,
+    charge and release sit in the same block (the body of the candidate loop, so a candidate that
+    does not exist is never released), both with `INCLUDE_RECURSION_COST`, and `decr_depth` is the
+    plain checked subtraction (an unbalanced release panics in a debug build instead of being
+    absorbed) -/
+theorem include_exits_balanced :
+    includeExits = [("before", "ok!"), ("before", "return"), ("before", "continue"), ("before", "ok!"),
+      ("charge", "ok!"), ("released", "ok!"), ("released", "return")] ∧
+    (∀ e ∈ includeExits, e.1 ≠ "held") ∧
+    includeChargeScope = (1, 1) ∧
+    includeChargeArgs = ("INCLUDE_RECURSION_COST", "INCLUDE_RECURSION_COST") ∧
+    decrDepthBody = "self.outer_stack_depth -= delta;" :=
+  ⟨rfl, by decide, rfl, rfl, rfl⟩
 
 end MJ.C11
